@@ -31,7 +31,7 @@ PROBES = [
     ("unnamedFixed", "F6", "package w\n\nvar F func(int, string) int\n\nvar W = deriveCurry(F)\n"),
     ("shadowFixed", "F6", "package w\n\nvar F func(f int, b string) int\n\nvar W = deriveCurry(F)\n"),
     ("crossFixed", "F6", "package w\n\nvar F func(a int) func(a string) int\n\nvar W = deriveUncurry(F)\n"),
-    ("voidFixed", "F18", "package w\n\nvar F func(a int, b string)\n\nvar W = deriveCurry(F)\n"),
+    ("voidFixed", "F25", "package w\n\nvar F func(a int, b string)\n\nvar W = deriveCurry(F)\n"),
     ("zeroFixed", "F5", "package w\n\ntype NI int\ntype S struct{ A int }\n\n"
      "func F0(a int) (NI, error) { return 0, nil }\n"
      "func F1(a NI) (S, [2]int, NI, error) { return S{}, [2]int{}, 0, nil }\n\nvar W = deriveCompose(F0, F1)\n"),
@@ -39,8 +39,14 @@ PROBES = [
      "func F2(a int) error { return nil }\n\nvar W = deriveCompose(F0, F1)\nvar V = deriveComposeV(F1, F2)\n"),
 ]
 
+# informational probes (not model variants): defects outside the statements of C15/C16 that live in the same plugins
+INFO_PROBES = [
+    ("F12-variadic-forwarded-without-dots", "package w\n\nvar F func(a int, b string, c ...string) int\n\nvar W = deriveCurry(F)\n"),
+    ("F12-flip-of-2-parameter-variadic-panics", "package w\n\nvar F func(a int, b ...string) int\n\nvar W = deriveFlip(F)\n"),
+]
+
 # reason reported by the model for a wrapper that does not compile -> finding id
-WHY_FINDING = {"unnamed": "F6", "shadow": "F6", "dup": "F6", "void": "F18", "zero": "F5", "emptylhs": "F5"}
+WHY_FINDING = {"unnamed": "F6", "shadow": "F6", "dup": "F6", "void": "F25", "zero": "F5", "emptylhs": "F5"}
 WHY_TEXT = {
     "unnamed": "unnamed parameters: the wrapper body is printed as `f(, )` and does not compile",
     "shadow": "a parameter named like the generator's own binder (`f`, `err`) captures it: the wrapper does not compile",
@@ -72,6 +78,18 @@ def probe_flags(binp, cdir):
             err = p.stderr
         digits += "1" if ok else "0"
         detail[flag] = {"finding": fid, "fixed": ok, "goderive_rc": rc, "first_error": (err or "").strip().splitlines()[-1:]}
+    for i, (name, src) in enumerate(INFO_PROBES):
+        d = os.path.join(pdir, "v%d" % i)
+        os.makedirs(d)
+        with open(os.path.join(d, "w.go"), "w") as f:
+            f.write(src)
+        rc, err, to = common.run_goderive(binp, pdir, ["./v%d" % i], timeout=60)
+        ok = False
+        if rc == 0:
+            p = common.sh(["go", "build", "./v%d" % i], cwd=pdir, timeout=300)
+            ok, err = p.returncode == 0, p.stderr
+        detail["info:" + name] = {"goderive_rc": rc, "compiles": ok, "still_present": not ok,
+                                  "first_error": [l for l in (err or "").strip().splitlines() if l.strip()][:2]}
     return digits, detail
 
 
@@ -174,12 +192,22 @@ def prepare(tier, seed, plugins):
 
 
 def known_ids():
-    """ids listed with status "known" in known_findings.json (never written by the checks)."""
+    """Findings listed with status "known" in known_findings.json (never written by the checks), keyed by
+    id. An entry may also name the witness classes it covers (`"witness_class": ["void", ...]`, the
+    reasons of WHY_FINDING): then those classes are known under that entry's id, whatever it is."""
     try:
         js = json.load(open(os.path.join(common.VERIF, "known_findings.json")))
     except (OSError, ValueError):
         return {}
-    return {f["id"]: f for f in js.get("findings", []) if f.get("status") == "known"}
+    out = {}
+    for f in js.get("findings", []):
+        if f.get("status") != "known":
+            continue
+        out[f["id"]] = f
+        wc = f.get("witness_class") or []
+        for w in ([wc] if isinstance(wc, str) else wc):
+            out["class:" + w] = f
+    return out
 
 
 def compare(rep, info, prop, opnames, only_pkg=None):
@@ -259,21 +287,25 @@ def compare(rep, info, prop, opnames, only_pkg=None):
     rep.cov["goderive_failures"] = len(nogen)
     for (fid, why), dd in sorted(defects.items()):
         op, impl, model, spec = dd["witness"] or (None, None, None, None)
+        wpkg = op.split(" ", 4)[3] if op else None
+        wit = classes[wpkg]["Go"] if wpkg else ""
         text = "%s: %s (%d packages, %d ops; minimal witness: %s)" % (
-            fid, WHY_TEXT[why], len(dd["pkgs"]), dd["ops"], (op or "").strip().split(" ", 5)[-1][:200])
-        if fid in known:
+            fid, WHY_TEXT[why], len(dd["pkgs"]), dd["ops"], wit[:200])
+        if "class:" + why in known:
+            rep.known.append(text.replace(fid + ":", known["class:" + why]["id"] + ":", 1))
+        elif fid in known and not known[fid].get("witness_class"):
             rep.known.append(text)
         else:
             st = status[op.split(" ", 4)[3]] if op else {}
             rep.violation("defect reproduced on the real code and not listed as known: " + text + " | " + st.get("compile_err", ""),
                           {"op": (op or "").strip(), "impl": impl, "model": model, "spec": spec, "finding": fid, "class": why,
-                           "signature": classes[op.split(" ", 4)[3]]["Sig"] if op else None,
+                           "signature": classes[op.split(" ", 4)[3]]["Go"] if op else None,
                            "compile_error": st.get("compile_err"), "packages": sorted(dd["pkgs"])[:20]}, True)
     for op, impl, model, spec in other_spec[:5]:
         pkg = op.split(" ", 4)[3]
         rep.violation("emitted code disagrees with the specification: impl=%s spec=%s model=%s on %s %s" % (
             impl, spec, model, op.strip()[:300], status[pkg].get("compile_err") or status[pkg].get("goderive_err") or ""),
-            {"op": op.strip(), "impl": impl, "model": model, "spec": spec, "signature": classes[pkg]["Sig"],
+            {"op": op.strip(), "impl": impl, "model": model, "spec": spec, "signature": classes[pkg]["Go"],
              "package": os.path.join(cdir, pkg)}, True)
     if t1_broken:
         op, impl, model, spec = t1_broken[0]
@@ -282,8 +314,40 @@ def compare(rep, info, prop, opnames, only_pkg=None):
             {"correspondence": "T1 " + ",".join(sorted(opnames)), "op": op.strip(), "impl": impl, "model": model, "spec": spec}, False)
 
 
+def import_closure(module):
+    """The project files a module depends on (transitively): what the forbidden-construct grep must cover
+    for this property's theorems."""
+    seen, todo = {}, [module]
+    while todo:
+        m = todo.pop()
+        path = os.path.join(common.LEAN, *m.split(".")) + ".lean"
+        if m in seen or not os.path.exists(path):
+            continue
+        seen[m] = path
+        for line in open(path):
+            line = line.strip()
+            if line.startswith("import "):
+                todo += [x for x in line.split()[1:] if x.startswith(("GoderiveModel", "Driver"))]
+    return sorted(seen.values())
+
+
+def proof_part(rep, prop):
+    """common.proof_part, but building only this property's theorems and the driver: other parts of the
+    Lean project are checked by their own properties (and may be mid-edit while this check runs)."""
+    targets = ["GoderiveModel.Props." + prop, "driver"]
+    orig, orig_sources = common.lean_build, common.lean_sources
+    common.lean_build = lambda t=None: orig(targets)
+    common.lean_sources = lambda: import_closure("GoderiveModel.Props." + prop)
+    try:
+        ok = common.proof_part(rep, prop, thorough_checker=(rep.tier == "thorough"))
+    finally:
+        common.lean_build, common.lean_sources = orig, orig_sources
+    rep.cov["checker_cmd"] = rep.cov["checker_cmd"].replace("lake build &&", "lake build %s &&" % " ".join(targets), 1)
+    return ok
+
+
 def run_family(rep, prop, plugins, opnames, only_pkg=None):
-    common.proof_part(rep, prop, thorough_checker=(rep.tier == "thorough"))
+    proof_part(rep, prop)
     info = prepare(rep.tier, rep.seed, plugins)
     rep.cov["corpus"] = info["stats"]
     rep.cov["timing"] = {"goderive_s": info.get("goderive_s"), "compile_s": info.get("compile_s")}
